@@ -76,10 +76,11 @@ pub fn gen_match(seed: u64, n: usize) -> Vec<Value> {
             // words may contain whitespace that is not ASCII (match_words splits on ASCII whitespace only)
             let pool = ["the", "The", "a", "A", "cat", "CAT", "dog", "x", "", "é", "É", "über", "Über", "ÜBER", "ж", "Ж", "10\u{a0}km", "a\u{3000}b", "x\u{2028}"];
             // one pair in sixty is long (more than a hundred words) with a displaced block: a word far from the diagonal
-            if rng.random_bool(1.0 / 60.0) {
-                let n = rng.random_range(70..=110usize);
+            if rng.random_bool(1.0 / 150.0) {
+                // both blocks end up more than 64 positions away from the diagonal
+                let n = rng.random_range(150..=180usize);
                 let a: Vec<String> = (0..n).map(|k| format!("w{k}")).collect();
-                let cut = rng.random_range(1..n);
+                let cut = rng.random_range(n / 2 - 5..=n / 2 + 5);
                 let mut b: Vec<String> = a[cut..].to_vec();
                 b.extend_from_slice(&a[..cut]);
                 if rng.random_bool(0.5) { b.insert(0, "moved".to_string()); }
